@@ -133,10 +133,10 @@ Definition OverS (l : lexer) : Prop :=
 
 Definition PosInv (l : lexer) : Prop := Norm l \/ EndS l \/ OverS l.
 
-Definition Inv (l : lexer) : Prop := W l /\ (xl l = false -> PosInv l).
-Definition NormInv (l : lexer) : Prop := W l /\ 1 <= offset l /\ (xl l = false -> Norm l).
+Definition Inv0 (l : lexer) : Prop := W l /\ (xl l = false -> PosInv l).
+Definition NormInv0 (l : lexer) : Prop := W l /\ 1 <= offset l /\ (xl l = false -> Norm l).
 
-Lemma NormInv_Inv l : NormInv l -> Inv l.
+Lemma NormInv0_Inv0 l : NormInv0 l -> Inv0 l.
 Proof. intros (Hw & _ & Hn). split; [assumption|]. intros H; left; auto. Qed.
 
 Lemma W_ch_nonzero l : W l -> ch l <> 0 -> 1 <= offset l <= len /\ index src (offset l - 1) = Ok (ch l).
@@ -145,7 +145,7 @@ Proof.
   rewrite <- Hc in Hi. split; [lia|assumption].
 Qed.
 
-Lemma Inv_nonzero_NormInv l : Inv l -> ch l <> 0 -> NormInv l.
+Lemma Inv0_nonzero_NormInv0 l : Inv0 l -> ch l <> 0 -> NormInv0 l.
 Proof.
   intros (Hw & Hp) Hnz. pose proof (W_ch_nonzero _ Hw Hnz) as (Ho & _).
   split; [assumption|]. split; [lia|]. intros Hx. destruct (Hp Hx) as [Hn|[He|Ho']]; [assumption| |].
@@ -154,8 +154,8 @@ Proof.
 Qed.
 
 (* the position an ILLEGAL token reports, whatever the state *)
-Lemma Inv_lpos_exists l :
-  Inv l -> xl l = false -> over l = false -> exists k, 0 <= k <= len /\ lpos l = P k.
+Lemma Inv0_lpos_exists l :
+  Inv0 l -> xl l = false -> over l = false -> exists k, 0 <= k <= len /\ lpos l = P k.
 Proof.
   intros ((Hb & Hc) & Hp) Hx Hov. destruct (Hp Hx) as [Hn|[He|Ho]].
   - destruct Hn as (H1 & Hl & _). exists (offset l - 1). split; [lia|assumption].
@@ -167,9 +167,9 @@ Qed.
 Lemma adv_zero p : adv p 0 = col_add p 1.
 Proof. reflexivity. Qed.
 
-Lemma next_inv l :
-  Inv l ->
-  okr (fun l' => Inv l' /\ xl l' = xl l /\ offset l <= offset l' <= offset l + 1 /\
+Lemma next_inv0 l :
+  Inv0 l ->
+  okr (fun l' => Inv0 l' /\ xl l' = xl l /\ offset l <= offset l' <= offset l + 1 /\
                  (ch l <> 0 -> offset l' = offset l + 1) /\
                  hadSpace l' = hadSpace l /\ lastTok l' = lastTok l /\ lpos l' = npos l /\
                  (xl l = false -> offset l < len \/ ch l <> 0 -> Norm l'))
@@ -241,19 +241,94 @@ Proof.
 Qed.
 
 (* from a normal state with a real current character the state stays normal *)
+Lemma next_norm0 l :
+  NormInv0 l -> ch l <> 0 ->
+  okr (fun l' => NormInv0 l' /\ xl l' = xl l /\ offset l' = offset l + 1 /\
+                 hadSpace l' = hadSpace l /\ lastTok l' = lastTok l /\ lpos l' = npos l)
+      (next src l).
+Proof.
+  intros Hn Hnz. pose proof (NormInv0_Inv0 _ Hn) as Hi.
+  destruct (next_inv0 l Hi) as (l' & E & Hi' & Hx & Ho & Ho1 & Hh & Ht & Hl & HN).
+  exists l'. split; [assumption|]. specialize (Ho1 Hnz).
+  destruct Hn as (Hw & H1 & _).
+  splits; try assumption; try lia.
+  split; [apply Hi'|]. split; [lia|].
+  intros Hx'. apply HN; [congruence|right; assumption].
+Qed.
+
+
+(* ---- the ghost flag over: it is only ever set when the last byte of the source is a backslash,
+   provided next() is called at the end of input only from the two places that do so (after a
+   backslash inside a string or a regex) ---------------------------------------------------- *)
+Definition BS : Prop := getch src (len - 1) = 92.
+Definition OverOK (l : lexer) : Prop := over l = true -> BS.
+
+Lemma next_over l l' :
+  next src l = LOk l' -> W l -> OverOK l -> ch l <> 0 \/ getch src (offset l - 2) = 92 -> OverOK l'.
+Proof.
+  intros E (Hb & Hc) Hov Hpre. unfold next in E.
+  destruct (offset l >=? len) eqn:Ege.
+  - destruct (ch l =? 0) eqn:Ez.
+    + injection E as <-. unfold OverOK; cbn [over]. intros Ho.
+      destruct (over l) eqn:Eo; [apply Hov; exact Eo|].
+      cbn [orb] in Ho. assert (Eoff : offset l = len + 1) by lia.
+      destruct Hpre as [Hnz|Hbs]; [lia|]. unfold BS. rewrite Eoff in Hbs.
+      replace (len + 1 - 2) with (len - 1) in Hbs by lia. exact Hbs.
+    + injection E as <-. exact Hov.
+  - destruct (index src (offset l)); try discriminate. cbn in E. injection E as <-. exact Hov.
+Qed.
+
+Definition Inv (l : lexer) : Prop := Inv0 l /\ OverOK l.
+Definition NormInv (l : lexer) : Prop := NormInv0 l /\ OverOK l.
+
+Lemma NormInv_Inv l : NormInv l -> Inv l.
+Proof. intros (H & Ho). split; [apply NormInv0_Inv0; exact H|exact Ho]. Qed.
+
+Lemma Inv_nonzero_NormInv l : Inv l -> ch l <> 0 -> NormInv l.
+Proof. intros (H & Ho) Hnz. split; [apply Inv0_nonzero_NormInv0; assumption|exact Ho]. Qed.
+
+Lemma Inv_lpos_exists l :
+  Inv l -> xl l = false -> over l = false -> exists k, 0 <= k <= len /\ lpos l = P k.
+Proof. intros (H & _). apply Inv0_lpos_exists; exact H. Qed.
+
+Lemma Inv_W l : Inv l -> W l.
+Proof. intros ((H & _) & _); exact H. Qed.
+
+Lemma NormInv_W l : NormInv l -> W l.
+Proof. intros ((H & _) & _); exact H. Qed.
+
+Lemma NormInv_bounds l : NormInv l -> 1 <= offset l <= len + 1.
+Proof. intros (((Hb & _) & H1 & _) & _). lia. Qed.
+
+Lemma NormInv_norm l : NormInv l -> xl l = false -> Norm l.
+Proof. intros ((_ & _ & H) & _). exact H. Qed.
+
+Lemma Inv_over l : Inv l -> over l = true -> BS.
+Proof. intros (_ & H). exact H. Qed.
+
+Lemma next_inv l :
+  Inv l -> ch l <> 0 \/ getch src (offset l - 2) = 92 ->
+  okr (fun l' => Inv l' /\ xl l' = xl l /\ offset l <= offset l' <= offset l + 1 /\
+                 (ch l <> 0 -> offset l' = offset l + 1) /\
+                 hadSpace l' = hadSpace l /\ lastTok l' = lastTok l /\ lpos l' = npos l)
+      (next src l).
+Proof.
+  intros (Hi & Ho) Hpre.
+  destruct (next_inv0 l Hi) as (l' & E & Hi' & H2 & H3 & H4 & H5 & H6 & H7 & _).
+  exists l'. split; [exact E|]. splits; try assumption; try lia.
+  split; [exact Hi'|]. apply (next_over l l' E); [apply Hi|exact Ho|exact Hpre].
+Qed.
+
 Lemma next_norm l :
   NormInv l -> ch l <> 0 ->
   okr (fun l' => NormInv l' /\ xl l' = xl l /\ offset l' = offset l + 1 /\
                  hadSpace l' = hadSpace l /\ lastTok l' = lastTok l /\ lpos l' = npos l)
       (next src l).
 Proof.
-  intros Hn Hnz. pose proof (NormInv_Inv _ Hn) as Hi.
-  destruct (next_inv l Hi) as (l' & E & Hi' & Hx & Ho & Ho1 & Hh & Ht & Hl & HN).
-  exists l'. split; [assumption|]. specialize (Ho1 Hnz).
-  destruct Hn as (Hw & H1 & _).
-  splits; try assumption; try lia.
-  split; [apply Hi'|]. split; [lia|].
-  intros Hx'. apply HN; [congruence|right; assumption].
+  intros (Hn & Ho) Hnz.
+  destruct (next_norm0 l Hn Hnz) as (l' & E & Hn' & H2 & H3 & H4 & H5 & H6).
+  exists l'. split; [exact E|]. splits; try assumption; try lia.
+  split; [exact Hn'|]. apply (next_over l l' E); [apply Hn|exact Ho|left; exact Hnz].
 Qed.
 
 End Inv.
